@@ -258,3 +258,24 @@ def random_cases(rng, tier):
 def nontrivial(o):
     c = o["in"]["c"]
     return isinstance(c, list) and len(c) > 0
+
+
+MANIFEST = {
+    "text": ("GeomValidate.tla represents every coordinate structure -- valid or malformed (wrong arity, wrong nesting, scalars for lists) -- "
+             "as a bracket-token string, so one TLC type covers them all, and defines on it Valid (shape, time >= 0, 0 <= frequency <= "
+             "MAX_FREQUENCY, the per-type rules, under three readings of the statement's two open points), Normal / AllowedNormals, and "
+             "Impl: the validator chain of each of the nine classes (pydantic type layer, first and second field validator, Python "
+             "unpacking, second validator not run after the first raised). MC_GeomValidate.tla steps through that chain and TLC checks "
+             "Impl accepts iff Valid, Impl's value = Normal, idempotence / validity / point preservation of Normal, and that a fast parser "
+             "agrees with a declarative one, over flat lists on a value alphabet incl. -1, 0, MAX_FREQUENCY, MAX_FREQUENCY+1, scalars, "
+             "extra nesting, point lists, valid skeletons of all kinds, every single-position token edit of every skeleton (replace, drop, "
+             "insert, repeat, wrap, unwrap, reverse, empty), every skeleton under every tag, and (thorough) every double edit. Each "
+             "structure is then pushed through the constructor, model_validate, geometry_validate in json / dict / attributes mode and "
+             "SoundEvent(geometry=dict), with float and int numbers, and TLC judges accept/reject, error class, normal form, class = tag, "
+             "agreement of the modes and the JSON dump round trip. Bounded-exhaustive plus random multi-edit structures."),
+    "note": ("trusted: TLC, the binder checks/c03.py (token <-> nested list, calls, exact read-back); numbers are integer-valued ints/floats "
+             "(NaN, inf, strings, booleans, tuples and fractional values are not generated); 'no object exists' is observed as 'the call "
+             "raised'; where the statement is open (multi-line forward: first<last vs every step; polygon without rings) nothing is demanded; "
+             "small-scope hypothesis beyond the enumerated structures"),
+    "design_ref": "DESIGN.md section 4 C03",
+}
